@@ -31,6 +31,24 @@ def _mutate(name):
             s = str.lstrip(self, chars)
             return Token(s, self.pos, self.source, self.filename)
         Token.lstrip = lstrip
+    elif name == 'memo_parse_defines':
+        import functools
+        tal.parse_defines = functools.lru_cache(maxsize=None)(tal.parse_defines)
+        from chameleon.zpt import program as zp
+        if hasattr(zp, 'parse_defines'):
+            zp.parse_defines = tal.parse_defines
+    elif name == 'memo_expression_compiler':
+        import functools
+        from chameleon import tales
+        real = tales.ExpressionParser.__call__
+        memo = {}
+
+        def __call__(self, expression):
+            key = (id(self.factories), str(expression))
+            if key not in memo:
+                memo[key] = real(self, expression)
+            return memo[key]
+        tales.ExpressionParser.__call__ = __call__
     elif name == 'groups_span_off':
         def groups(m, token):
             result = []
@@ -55,6 +73,11 @@ def _mutate(name):
 def prepare(cfg):
     if cfg.get('mutant'):
         _mutate(cfg['mutant'])
+    if cfg.get('clauses'):
+        # warm the compiler natively (it reads its own source with inspect) -- and give any cross-compile
+        # state a first occurrence of every clause
+        for name in cfg['clauses']:
+            _compile_error(dict(ERR_CLAUSES)[name])
 
 
 def valid(t):
@@ -245,3 +268,76 @@ def accept(c0: int, c1: int, c2: int, c3: int, i: int, j: int, ni: bool, nj: boo
     except Exception:
         return _res(False)
     return _res(out == doc)
+
+
+# ---- (6) compile histories: locations do not depend on what was compiled before -------------------------
+# A clause with an error is compiled at several offsets (and lines), one compilation after the other in one
+# process; every raised TemplateError must locate its token in the source of *that* compilation.
+PADS = ['', ' ', '\n', '\n\n  ', '<b>x</b>', '<i>\n</i> ']
+ERR_CLAUSES = [
+    ('define-expr', '<div tal:define="x 1 +">a</div>'),
+    ('define-second-part', '<div tal:define="y 1; x 1 +">a</div>'),
+    ('content-expr', '<div tal:content="python: 1 +">a</div>'),
+    ('not-prefix', '<div tal:condition="not: 1 +">a</div>'),
+    ('interpolation', '<div>${1 +}</div>'),
+    ('attr-interpolation', '<div title="a ${1 +}">a</div>'),
+    ('reserved-define', '<div tal:define="econtext 1">a</div>'),
+    ('reserved-tuple', '<div tal:define="(a, rcontext) (1, 2)">a</div>'),
+    ('reserved-repeat', '<div tal:repeat="__x (1, 2)">a</div>'),
+    ('define-syntax', '<div tal:define="x">a</div>'),
+    ('attributes-expr', '<div tal:attributes="title 1 +">a</div>'),
+    ('unknown-statement', '<div tal:nosuch="x">a</div>'),
+    ('content-and-replace', '<div tal:content="1" tal:replace="2">a</div>'),
+    ('end-without-start', '<div>a</b></div>'),
+    ('i18n-duplicate', '<div i18n:attributes="title; title">a</div>'),
+]
+
+
+def _compile_error(text):
+    from chameleon import PageTemplate
+    from vlib.notrace import NoTracing
+    # compile() and the compiler's own use of inspect/textwrap are outside the tracer: the history (which
+    # clause, at which offset, in which order) is what the solver ranges over, each compilation is concrete
+    with NoTracing():
+        try:
+            PageTemplate(text)
+        except TemplateError as exc:
+            return exc
+        return None
+
+
+def _located(exc, text):
+    t = exc.token
+    if not hasattr(t, 'pos') or t.source is None:
+        return False
+    if text[t.pos:t.pos + len(t)] != t:
+        return False
+    # line / column as reported by the token against the closed form on this compilation's source
+    before = text[:t.pos]
+    line = before.count('\n') + 1
+    col = len(before) - (before.rfind('\n') + 1)
+    return t.location == (line, col)
+
+
+def compile_history(k0: int, p0: int, k1: int, p1: int, k2: int, p2: int) -> bool:
+    """
+    pre: 0 <= p0 < 6 and 0 <= p1 < 6 and 0 <= p2 < 6
+    pre: 0 <= k0 < len(CFG['clauses']) and 0 <= k1 < len(CFG['clauses']) and 0 <= k2 < len(CFG['clauses'])
+    post: _
+    """
+    clauses = CFG['clauses']
+    ok = True
+    steps = ((k0, p0), (k1, p1), (k2, p2))[:CFG.get('steps', 2)]
+    for (k, p) in steps:
+        name = pickv(clauses, k)
+        text = pickv(PADS, p) + dict(ERR_CLAUSES)[name]
+        exc = _compile_error(text)
+        ok = ok and exc is not None and _located(exc, text)
+    return _res(ok)
+
+
+def pickv(table, idx):
+    for j in range(len(table)):
+        if idx == j:
+            return table[j]
+    raise IndexError(idx)
